@@ -76,7 +76,7 @@ def endpoints(upload_id):
 DEFECTS = ["none", "duplicated-signed-header", "no-auth", "malformed-auth", "unknown-key", "wrong-secret", "flipped-signature", "altered-signed-header", "altered-query",
            "appended-query-semicolon", "appended-query-bad-escape",
            "altered-payload", "skewed-date", "wrong-region", "wrong-service", "missing-date", "presigned-ok", "presigned-expired",
-           "presigned-modified", "presigned-wrong-secret", "presigned-repeated-param", "chunked-wrong-secret", "unsigned-trailer-wrong-secret", "chunked-forged-truncated"]
+           "presigned-modified", "presigned-wrong-secret", "presigned-repeated-param", "presigned-appended-behind-hash", "presigned-path-encoded-twice", "chunked-wrong-secret", "unsigned-trailer-wrong-secret", "chunked-forged-truncated"]
 # the error code the middleware chain must answer with (model: Model/Auth.v); None = any 4xx
 EXPECT = {"no-auth": "InvalidArgument", "malformed-auth": "MissingFields", "unknown-key": "InvalidAccessKeyId", "wrong-secret": "SignatureDoesNotMatch",
           "flipped-signature": "SignatureDoesNotMatch", "altered-signed-header": "SignatureDoesNotMatch", "altered-query": "SignatureDoesNotMatch",
@@ -84,7 +84,7 @@ EXPECT = {"no-auth": "InvalidArgument", "malformed-auth": "MissingFields", "unkn
           "altered-payload": None, "skewed-date": "RequestTimeTooSkewed", "wrong-region": "SignatureDoesNotMatch", "wrong-service": "SignatureDoesNotMatch",
           "missing-date": "AccessDenied", "presigned-expired": None, "presigned-modified": "SignatureDoesNotMatch", "presigned-wrong-secret": "SignatureDoesNotMatch",
           "chunked-wrong-secret": "SignatureDoesNotMatch", "unsigned-trailer-wrong-secret": "SignatureDoesNotMatch",
-          "presigned-repeated-param": None, "chunked-forged-truncated": None}
+          "presigned-repeated-param": None, "presigned-appended-behind-hash": None, "presigned-path-encoded-twice": None, "chunked-forged-truncated": None}
 
 
 def send(cl, ep, defect, port):
@@ -152,6 +152,20 @@ def send(cl, ep, defect, port):
             now2 = datetime.datetime.utcnow() - datetime.timedelta(minutes=10)
             url, hd = c2.presign(method, path, query, expires=60, now=now2, secret=secret, headers=hs)
             url = url.replace("?", "?X-Amz-Expires=604800&", 1)
+        if defect == "presigned-appended-behind-hash":
+            # parameters appended to a valid presigned URL behind a parameter named "#" (sent as %23): a verifier that rebuilds the URL
+            # with the decoded key sees a fragment there and verifies the query in front of it only; they select another sub-resource
+            extra = {"DELETE": "tagging", "GET": "tagging", "PUT": "tagging", "HEAD": "versionId=null", "POST": "uploads", "PATCH": "x"}[method]
+            url += "&%23=x&" + extra
+        if defect == "presigned-path-encoded-twice":
+            # the URL was signed for a key spelled with one percent-encoded letter; it is sent with that escape encoded once more,
+            # which names another key (the one containing the literal escape)
+            sp = once_spelled(path)
+            if sp is None:
+                return c2.raw(method, url.replace("X-Amz-Expires=300", "X-Amz-Expires=900"), hd, body)      # (no key to re-spell: an ordinary modified URL)
+            head, key, i, once = sp
+            qs = url.split("?", 1)[1]
+            url = s3c.quote_path(head) + "/" + key[:i] + "%%25%02X" % ord(key[i]) + key[i + 1:] + "?" + qs
         return c2.raw(method, url, hd, body)
     elif defect == "chunked-forged-truncated":
         # a streaming-signed upload with valid headers whose chunk data was altered (its chunk signature no longer matches) and whose
@@ -179,6 +193,15 @@ def send(cl, ep, defect, port):
     return cl.req(method, path, query=query, body=body, headers=headers, **kw)
 
 
+def once_spelled(path):
+    """(head, key, i, the key with its first letter written as a literal %XX escape) for an object path, None when there is no such letter"""
+    if "/" not in path.strip("/") or not any(ch.isalpha() for ch in path.rsplit("/", 1)[1]):
+        return None
+    head, key = path.rsplit("/", 1)
+    i = next(j for j, ch in enumerate(key) if ch.isalpha())
+    return head, key, i, key[:i] + "%%%02X" % ord(key[i]) + key[i + 1:]
+
+
 def prepare(site, g):
     cl = s3c.Client(g.port, "root", "rootsecret")
     ok = cl.req("PUT", "/bk1", headers={"x-amz-bucket-object-lock-enabled": "true"}).status == 200
@@ -191,6 +214,11 @@ def prepare(site, g):
     uid = r.xml().findtext("UploadId") if r.status == 200 else ""
     ok &= cl.req("PUT", "/bk1/mp", query={"partNumber": "1", "uploadId": uid}, body=b"part-one").status == 200
     ok &= cl.req("PATCH", "/create-user", body=b"<Account><Access>victim</Access><Secret>victimsecret</Secret><Role>user</Role><UserID>0</UserID><GroupID>0</GroupID></Account>").status in (200, 201)
+    # the keys that contain a literal escape where an endpoint's key has a letter exist, with other content (presigned-path-encoded-twice)
+    for ep in endpoints(uid):
+        sp = once_spelled(ep[2]) if ep[2].startswith("/bk") else None
+        if sp:
+            cl.req("PUT", sp[0] + "/" + sp[3], body=b"OTHER-OBJECT-" + MARKER)
     return cl, uid, ok
 
 
